@@ -58,12 +58,13 @@ fn parse_console(out: &str) -> Vec<CaseOut> {
             section = "";
         } else if let Some(c) = cur.as_mut() {
             if let Some(n) = t.strip_prefix("No Test expectation was set for Rule ") {
-                c.no_expectation.insert(n.trim().to_string());
+                c.no_expectation.insert(crate::drive::strip_file_prefix(n.trim()));
             } else if t == "FAIL Rules:" {
                 section = "fail";
             } else if t == "PASS Rules:" {
                 section = "pass";
             } else if let Some((name, rest)) = t.split_once(": Expected = ") {
+                let name = crate::drive::strip_file_prefix(name);
                 if section == "pass" {
                     c.passed.insert(name.to_string());
                 } else if section == "fail" {
@@ -86,16 +87,16 @@ fn parse_structured(j: &J) -> Result<Vec<CaseOut>, String> {
     for tc in tcs {
         let mut c = CaseOut::default();
         for p in tc["passed_rules"].as_array().cloned().unwrap_or_default() {
-            c.passed.insert(p["name"].as_str().unwrap_or("").to_string());
+            c.passed.insert(crate::drive::strip_file_prefix(p["name"].as_str().unwrap_or("")));
         }
         for f in tc["failed_rules"].as_array().cloned().unwrap_or_default() {
             c.failed.insert(
-                f["name"].as_str().unwrap_or("").to_string(),
+                crate::drive::strip_file_prefix(f["name"].as_str().unwrap_or("")),
                 (f["expected"].as_str().unwrap_or("").to_string(), f["evaluated"].as_array().map(|a| a.iter().map(|s| s.as_str().unwrap_or("").to_string()).collect()).unwrap_or_default()),
             );
         }
         for s in tc["skipped_rules"].as_array().cloned().unwrap_or_default() {
-            c.no_expectation.insert(s["name"].as_str().unwrap_or("").to_string());
+            c.no_expectation.insert(crate::drive::strip_file_prefix(s["name"].as_str().unwrap_or("")));
         }
         out.push(c);
     }
@@ -110,7 +111,9 @@ struct TestCase {
     dir_layout: bool,
 }
 
-fn spec_text(c: &TestCase) -> String {
+/// `default_name`: the name under which the test command knows the implicit rule of the file
+/// (`<stem>/default` with --dir, `<rules path as given>/default` with -r / -t)
+fn spec_text(c: &TestCase, default_name: &str) -> String {
     let specs: Vec<V> = c
         .inputs
         .iter()
@@ -120,7 +123,7 @@ fn spec_text(c: &TestCase) -> String {
             V::Map(vec![
                 ("name".into(), V::Str(format!("case{}", i))),
                 ("input".into(), V::parse_json(inp).unwrap_or(V::Null)),
-                ("expectations".into(), V::Map(vec![("rules".into(), V::Map(e.iter().map(|(k, v)| (k.clone(), V::s(v.text()))).collect()))])),
+                ("expectations".into(), V::Map(vec![("rules".into(), V::Map(e.iter().map(|(k, v)| (if k == "default" { default_name.to_string() } else { k.clone() }, V::s(v.text()))).collect()))])),
             ])
         })
         .collect();
@@ -143,6 +146,7 @@ fn check(c: &TestCase, evals: &mut u64) -> Result<Option<(usize, usize, usize)>,
         let (v, _) = verdict(inp, &c.rules);
         match v {
             Verdict::Ok { rules, .. } => {
+                let rules: Vec<(String, St)> = rules.into_iter().map(|(n, s)| (crate::drive::strip_file_prefix(&n), s)).collect();
                 // the `validate` command itself (its own document loader) assigns the same statuses
                 *evals += 1;
                 let vr = validate_payload(&[c.rules.clone()], &[inp.clone()], &[], &VOpts::structured(Fmt::Json));
@@ -170,7 +174,8 @@ fn check(c: &TestCase, evals: &mut u64) -> Result<Option<(usize, usize, usize)>,
     let rp = dir.join("x.guard");
     let tp = dir.join(format!("tests/x_tests.{}", if c.spec_yaml { "yaml" } else { "json" }));
     write_file(&rp, &c.rules);
-    write_file(&tp, &spec_text(c));
+    let default_name = if c.dir_layout { "x/default".to_string() } else { format!("{}/default", rp.to_string_lossy()) };
+    write_file(&tp, &spec_text(c, &default_name));
     let mut totals = (0, 0, 0);
     for fmt in [Fmt::Single, Fmt::Json, Fmt::Yaml, Fmt::Junit] {
         let o = TOpts { fmt, verbose: false, alphabetical: false, last_modified: false };
@@ -257,6 +262,9 @@ fn random_case(u: &mut Choices, sz: Size) -> CaseResult {
     // a quarter of the cases: CloudFormation-shaped inputs and a program that captures map keys
     let captures = u.chance(1, 4);
     let doc = if captures { gen_cfn_doc(u, &sz) } else { gen_doc(u, &sz) };
+    // a third of the programs have clauses outside any rule (the implicit `default` rule, which the
+    // test command names after the file)
+    let sz = Size { default_rule: u.chance(1, 3), ..sz };
     let mut file = gen_core_file(u, &doc, sz, true, true);
     if captures {
         add_capture_idiom(u, &mut file, &doc);
@@ -267,7 +275,11 @@ fn random_case(u: &mut Choices, sz: Size) -> CaseResult {
     for _ in 1..nin {
         inputs.push(if captures { gen_cfn_doc(u, &sz).to_json() } else { gen_doc(u, &sz).to_json() });
     }
-    let names: BTreeSet<String> = file.rules.iter().map(|r| r.name.clone()).collect();
+    let mut names: BTreeSet<String> = file.rules.iter().map(|r| r.name.clone()).collect();
+    if !file.default.is_empty() {
+        names.insert("default".into());
+    }
+    let has_default = !file.default.is_empty();
     let mut exps = vec![];
     for _ in 0..nin {
         let mut e = BTreeMap::new();
@@ -299,6 +311,7 @@ fn random_case(u: &mut Choices, sz: Size) -> CaseResult {
             key: hash_case(&[&c.rules, &c.inputs.join("\u{1}"), &format!("{:?}", c.exps)]),
             classes: vec![
                 format!("inputs:{}", c.inputs.len()),
+                format!("default-rule:{}", has_default),
                 format!("spec:{}", if c.spec_yaml { "yaml" } else { "json" }),
                 format!("layout:{}", if c.dir_layout { "dir" } else { "file" }),
                 format!("met:{}", p.min(3)),
